@@ -25,6 +25,9 @@ def run(ctx):
     names = F.reach(ents)
     rep.add_functions(names)
     ns, nl = alphabet.check(rep, F, names)
+    from rules import moveclear
+    nmc = moveclear.check(rep, F, names)
+    rep.floor('in-place digit shifts followed by a clear', nmc, 1)
     rep.floor('rendering entry points', len(ents), 10)
     rep.floor('Display rule instances', n3, 6)
     rep.floor('output sinks on rendering paths', ns, 25)
